@@ -127,6 +127,7 @@ def derivation_route(res, tr, opts):
         index[var] = {v: gi for gi, g in enumerate(groups) for v in g["values"]}
     done = set()
     structs = set()
+    line_budget = [250000]
     for pw, sections in tr.cap.parses:
         if sections is None or pw in done:
             continue
@@ -165,9 +166,13 @@ def derivation_route(res, tr, opts):
             size = 1
             for var, gi in pt:
                 size *= len(pcfg.grammar[var][gi]["values"])
-            if size > 40000:
-                res.stats["expansion_too_large_to_check"] += 1
+            if size > 40000 or line_budget[0] < size:
+                # (flat lists: every value of a length is seen once, so one group holds them all and one pre-terminal
+                # expands to their whole product; the structural part above has been checked)
+                res.stats["expansion_not_generated(structure_checked_only)"] += 1
+                res.stats["passwords_followed_through_the_ruleset"] += 1
                 continue
+            line_budget[0] -= size
             out.take()
             with guesser.streams(out, guesser.Sink()):
                 pcfg.create_guesses([list(x) for x in pt])
@@ -192,8 +197,19 @@ def run_c03(t, tier, res):
     if opts["coverage"] == 0.0:
         opts["coverage"] = 0.3
     scratch.fresh_disk()
-    tr = trainer.train(pws, opts)
-    res.sample = {"passwords": pws[:14], "n": len(pws), "opts": opts}
+    counted = (not large) and t.chance(1, 4)
+    if counted:
+        # the same list as a `uniq -c` style file trained with --prefixcount (repeated lines collapsed, some $HEX[])
+        from . import formats
+        usable = [p for p in pws if p and not formats.is_hex_literal(p) and p == p.strip("\r\n")
+                  and not any(c in p for c in formats.FORBIDDEN)]
+        data, _nh, _nj, _errs = formats.render(t, usable, opts["encoding"], "count", False)
+        tr = trainer.train(None, dict(opts, prefixcount=True), raw=data)
+        pws = usable
+        res.stats["count_prefixed_lists"] += 1
+    else:
+        tr = trainer.train(pws, opts)
+    res.sample = {"passwords": pws[:14], "n": len(pws), "opts": opts, "count_prefixed": counted}
     if not tr.ok:
         res.rejected = "trainer_failed"
         return
@@ -235,6 +251,19 @@ def run_c03(t, tier, res):
             continue
         if pw not in strings:
             missing.append((pw, "".join(labels)))
+    if counted and not missing:
+        # the passwords are those of the list as written, not what the reader made of a line: every list entry (with a
+        # non-blank character, free of e-mail/website structure, inside the case domain) must come out of the guesser
+        seen = {pw: sections for pw, sections in tr.cap.parses}
+        for p in pws:
+            if not p.strip(" \u00a0\u3000") or not case_domain(p):
+                continue
+            sec = seen.get(p)
+            if sec is not None and any(l[0] in "EW" for _, l in sec):
+                continue
+            if p not in strings and (sec is not None or p.strip() in seen or p.lstrip() in seen):
+                missing.append((p, "(as written in the count-prefixed list; the trainer read %r)" % (
+                    p if sec is not None else (p.lstrip() if p.lstrip() in seen else p.strip()))))
     if missing:
         res.violate("C03", "training_password_not_reproduced", {"password": missing[0][0], "structure": missing[0][1],
                                                                 "missing": len(missing), "guesses": n, "encoding": opts["encoding"]})
